@@ -329,3 +329,24 @@ META["C17"] = {
     "note": "Goroutine leaks are observed both by a census of stacks inside the package and by the fake-clock bubble refusing to end while goroutines are blocked.",
     "technique": "property-based testing (rapid): fault-sequence generation with scripted fakes on a fake clock; model-based state-machine testing; goroutine-census invariant",
 }
+
+PROPS["C15"] = {
+    "rule": ("c15_peers: maxima 1-4, a cyclic dialer script (each rendezvous returns at once or stays in flight until a scripted "
+             "'release', succeeds or fails), and 1-30 operations out of {Collect, Pop, a specific peer closes on its own, release "
+             "the oldest rendezvous in flight, End, start connectLoop}, always followed by a final End and release of everything. "
+             "Oracle after every step: live peers <= maximum; a Pop called after a peer was closed never hands it over; End never "
+             "panics; and at the end: every End and Pop call has returned (stall detector: 12 s of real time for something that "
+             "takes microseconds), every peer ever created is closed, no rendezvous started after the first End returned, Pops "
+             "called after End returned nil. Non-trivial = an End issued while a Collect is in flight, after peers went stale, or "
+             "a repeated End. c15_rendezvous: real pion peer construction with generated ICE configurations and scripted broker "
+             "outcomes (see DESIGN)."),
+    "assumptions": ["the schedule is owned through explicit gates in the scripted dialer, not through a clock (sync.Mutex waits freeze a synctest bubble and Peers holds a mutex across the rendezvous)",
+                    "connectLoop's 10 s pacing is real time: only its first iteration is inside a case"],
+    "units": [U("c15_peers", "inpkg", "client/lib", "^TestVerifC15Peers$", (400, 5000), timeout=(400, 3000), wedge_is_violation=True),
+              U("c15_rendezvous", "inpkg", "client/lib", "^TestVerifC15Rendezvous$", (12, 120), timeout=(400, 3000))],
+}
+META["C15"] = {
+    "level": "Sampled exploration of operation histories with a scripted dialer whose blocking points are chosen by the generator (so 'End while a rendezvous is in flight' is constructed, not raced), invariants after every step; generated failing rendezvous of every kind against real pion in real time.",
+    "note": "Shutdown liveness is decided as bounded liveness: everything must come to rest once the scripted rendezvous are released; real time is used only as a stall detector with a 12 s budget.",
+    "technique": "property-based testing (rapid): stateful operation sequences with scripted gates, invariants after every step; fault injection into the rendezvous",
+}
